@@ -149,6 +149,8 @@ def split_sims(text):
             cur["head"].append(l)
         elif l.startswith("P "):
             cur["p"] = l
+        elif l.startswith("Z "):
+            cur["z"] = l
         elif l.startswith("A "):
             cur["alt"].append(l[2:])
         else:
@@ -216,6 +218,13 @@ def compare_sims(impl, model, stats, fails):
         info = {"lines": [a["q"]], "rules": [rule_text(d) for d in a["rules"]], "setup": a["head"]}
         verdict = b["p"] or "P ?"
         same = a["lines"] == b["lines"]
+        if "z" in a:
+            stats["suspension_differentials"] += 1
+        if a.get("z") == "Z susp=fail":
+            info.update({"kind": "property-fails-on-impl", "verdict": verdict,
+                         "what": "a suspended rule has an effect: the run differs from the run with the suspended rules deleted"})
+            fails.append(info)
+            continue
         if same and verdict == "P ok":
             continue
         first = next(((x, y) for x, y in zip(a["lines"] + ["<end>"] * 99, b["lines"] + ["<end>"] * 99) if x != y), ("", ""))
@@ -328,7 +337,7 @@ def new_stats():
     return {"strings": 0, "accepted": 0, "rejected": 0, "histories": 0, "edits": 0, "edits_rejected": 0,
             "prints_with_suspended": 0, "by_edit": {}, "forms": {}, "distinct": set(),
             "sims": 0, "ticks": 0, "exit": {}, "sim_rules": {}, "show_lines": 0, "report_rows": 0,
-            "distinct_sim": set()}
+            "distinct_sim": set(), "suspension_differentials": 0}
 
 
 def corpus_files():
